@@ -294,6 +294,14 @@ func CalleeName(c *ssa.CallCommon) string {
 	return "dyn:" + Short(c.Value.Type().String())
 }
 
+// CalleeNameOf is the name CalleeName gives to static calls of f.
+func CalleeNameOf(f *ssa.Function) string {
+	if o := f.Origin(); o != nil {
+		return Short(o.String())
+	}
+	return Short(f.String())
+}
+
 // Calls returns the call instructions (call, go, defer) in f, in block order.
 func Calls(f *ssa.Function) []ssa.CallInstruction {
 	var out []ssa.CallInstruction
